@@ -59,7 +59,10 @@ TRUSTED = ["Gen.C03.istart / Gen.C03.groupSize regenerated from source_finder.pr
            "through the ast slice in translator/targets/C03.py",
            "Gen.C03.paUp*/paDown*/fix*/raWrap*/intFluxG/beamAreaG and the comparison-kind literals regenerated from pa_limit, fix_shape, "
            "result_to_components and WCSHelper.get_beamarea_pix through the ast slices in translator/targets/C03.py; the loops and "
-           "branches are re-assembled in Model/C03Gen.lean and run by the driver (palimit / fixshape / rawrap ops, bit-exact)"]
+           "branches are re-assembled in Model/C03Gen.lean and run by the driver (palimit / fixshape / rawrap ops, bit-exact)",
+           "Gen.C03.flag* (flags.py), estimateIsFlagG / summitFlagG / fitIsFlagG / componentFlagsG / refitMarkG / errMaskG regenerated from "
+           "estimate_lmfit_parinfo, _fit_island, result_to_components, _refit_islands and fitting.errors (int mode + `|`, `&`); glue "
+           "blindIslandFlagsG / refitFlagsG in Model/C03Gen.lean, run by the driver's flagisl / flagr ops on every island and refitted row"]
 PARTIAL = [
     "catalogue_consistent_partial: 'fitting completes on every valid image' (optimiser termination), b > 0, |dec| <= 90 "
     "(third-party WCS), strings agree with decimals (C17), int_flux within 1 % on a non-uniform grid, IEEE rounding of the "
